@@ -13,9 +13,14 @@ def step (c : Case) : String × String :=
   | "relay", [_proto, _thrIn, _thrOut, _dir, itemsS] =>
     let items := (splitList itemsS).map fun s =>
       if s.startsWith "x:" then (true, parsePayload (s.drop 2).toString) else (false, parsePayload (s.drop 2).toString)
-    let ps := items.map (·.2)
-    let marked := items.filter (·.1) |>.map (·.2)
-    let got := relay (fun f => marked.contains f) ps
+    -- tag every frame with its position so that "consumed" is decided per item, not per payload value
+    -- (a consumed item and a pass-through item may carry the same bytes)
+    let tagged := (List.range items.length).zip items |>.map fun (i, (_, p)) =>
+      [UInt8.ofNat (i / 256), UInt8.ofNat (i % 256)] ++ p
+    let consumedAt : Nat → Bool := fun i => match items[i]? with | some (c, _) => c | none => false
+    let got := (relay (fun f => match f with
+      | a :: b :: _ => consumedAt (a.toNat * 256 + b.toNat)
+      | _ => false) tagged).map (·.drop 2)
     let out := "recv=" ++ showList got
     (out, if c.impl == out then "ok" else "viol:relay-differs")
   | _, _ => ("bad-op", "-")
